@@ -135,7 +135,7 @@ fn main() {
     let single = SeriesFam {
         name: "mask-single".into(),
         alpha: ma.clone(),
-        max_len: run.pick(6, 8),
+        max_len: run.pick(6, 10),
         plain: false,
         fns: valid_fns(),
         tys: vec![ty_v1::<f64, f64>(), ty_v1::<Option<f64>, Option<f64>>()],
@@ -170,7 +170,7 @@ fn main() {
     let plain = SeriesFam {
         name: "mask-plain".into(),
         alpha: vec![Some(0.0), Some(1.0)],
-        max_len: run.pick(7, 9),
+        max_len: run.pick(7, 12),
         plain: true,
         fns: plain_fns(),
         tys: vec![ty_p1::<f64, f64>(), ty_p1::<i32, Option<f64>>(), ty_p1::<f64, i32>()],
